@@ -261,19 +261,28 @@ def check_c16(args):
                 continue
             litv, want = CONCRETE[(ty, cls)]
         col = f"v {'boolean' if ty == 'bool' else ty}{'' if nn else ' not null'}"
+        kl = "NULL" if sc.get("knull") else "1"
         for eng in ("mem", "disk"):
             steps = [{"sql": f"create table t(k int, {col})"}]
             if form == "values":
-                steps.append({"sql": f"insert into t values (1, {litv})"})
-            elif form == "select":
+                steps.append({"sql": f"insert into t values ({kl}, {litv})"})
+            elif form == "listed":
+                steps.append({"sql": f"insert into t(k, v) values ({kl}, {litv})"})
+            elif form == "permuted":
+                steps.append({"sql": f"insert into t(v, k) values ({litv}, {kl})"})
+            elif form in ("select", "select_permuted"):
                 steps.append({"sql": "create table src(k int)"})
                 steps.append({"sql": "insert into src values (1)"})
-                steps.append({"sql": f"insert into t select k, {litv} from src"})
+                steps.append({"sql": f"insert into t select k, {litv} from src" if form == "select" else
+                              f"insert into t(v, k) select {litv}, k from src"})
+            elif form == "subset_other":
+                steps.append({"sql": f"insert into t(v) values ({litv})"})
+                kl = "NULL"
             else:   # column subset: v is not mentioned -> NULL
                 steps.append({"sql": "insert into t(k) values (1)"})
-            steps.append({"sql": "select v from t"})
+            steps.append({"sql": "select v, k from t"})
             runs2.append({"id": f"{k}.{eng}", "engine": eng, "steps": steps})
-            meta.append((sc, litv, want, eng))
+            meta.append((dict(sc, k_offered=kl), litv, want, eng))
     outs2 = run_sharded("sql", runs2, tag="c16b", timeout=1200, case_timeout=30)
     nstore = 0
     for (sc, litv, want, eng), out in zip(meta, outs2):
@@ -294,6 +303,9 @@ def check_c16(args):
                 got = val[1] if val[0] in ("i",) else (bool(val[1]) if val[0] == "b" else
                                                        ("".join(chr(x) for x in val[1]) if val[0] == "s" else val[1]))
                 outcome = "same" if (want is not None and got == want) else f"other value {got!r}"
+            kv = sel["rows"][0][1]
+            if (kv[0] == "n") != (sc["k_offered"] == "NULL") or (kv[0] != "n" and kv[1] != 1):
+                outcome = f"the other column holds {kv} for {sc['k_offered']}"
         if outcome not in allowed:
             v.violation({"case": sc, "literal": litv, "engine": eng, "insert": ins, "select": sel},
                         f"[{eng}] INSERT of {litv} into {sc['ty']}{'' if sc['nullable'] else ' NOT NULL'} via "
